@@ -206,6 +206,86 @@ def table_form_headers(h1: int, h2: int) -> bool:
     return _headers_ok(a, b)
 
 
+# the same clashes in models of another shape: what uses the form is an EAM entry and [Pair] is empty or unrelated (a model must have a [Pair] section)
+CONTEXTS = ["empty-pair-section", "density-entry", "pair-and-embed"]
+
+
+def _ctx_frame(ctx, name):
+  pair = {"empty-pair-section": "[Pair]\n\n", "density-entry": "[Pair]\nA-A : as.zero\n\n",
+          "pair-and-embed": "[Pair]\nA-A : %s\n\n" % name}[ctx]
+  if ctx == "density-entry":
+    eam = "[EAM-Embed]\nA : as.zero\n\n[EAM-Density]\nA : %s\n\n" % name
+  else:
+    eam = "[EAM-Embed]\nA : %s\n\n[EAM-Density]\nA : as.zero\n\n" % name
+  return HEAD % "setfl" + pair + eam + "[Species]\nA.atomic_number : 1\nA.atomic_mass : 1.0\n\n"
+
+
+def _ctx_value(ctx, tab):
+  e = tab.eam_potentials[0]
+  if ctx == "density-entry":
+    return e.electronDensityFunction(2.0)
+  return e.embeddingFunction(2.0)
+
+
+def _headers_ctx_ok(h1, h2, ctx):
+  text = _ctx_frame(ctx, "tab") + "[%s]\nx : 0 1 2 3 4\ny : 1 1 1 1 1\n\n[%s]\nx : 0 1 2 3 4\ny : 2 2 2 2 2\n" % (h1, h2)
+  st, x = outcome(text)
+  n1, n2 = h1.split(":", 1)[1].strip(), h2.split(":", 1)[1].strip()
+  if n1 == n2:
+    return st == "rejected"
+  if "tab" not in (n1, n2):
+    return True
+  return st == "accepted" and abs(_ctx_value(ctx, x) - (1.0 if n1 == "tab" else 2.0)) < 1e-9
+
+
+def table_form_headers_contexts(h1: int, h2: int, ctx: int) -> bool:
+  """
+  pre: 0 <= h1 < 5 and 0 <= h2 < 5 and 0 <= ctx < 3
+  post: _
+  """
+  a, b, c = concrete(HEADERS[h1]), concrete(HEADERS[h2]), concrete(CONTEXTS[ctx])
+  with untraced():
+    return _headers_ctx_ok(a, b, c)
+
+
+def _forms_ctx_ok(s1, s2, ctx):
+  text = _ctx_frame(ctx, "f 1.0") + "[Potential-Form]\n%s = 1.0\n%s = 2.0\n" % (s1, s2)
+  st, x = outcome(text)
+  n1, n2 = s1.split("(")[0].strip(), s2.split("(")[0].strip()
+  if n1 == n2:
+    return st == "rejected"
+  return st == "accepted" and abs(_ctx_value(ctx, x) - (1.0 if n1 == "f" else 2.0)) < 1e-9
+
+
+def form_signatures_contexts(k1: int, k2: int, ctx: int) -> bool:
+  """
+  pre: 0 <= k1 < 8 and 0 <= k2 < 8 and 0 <= ctx < 3
+  post: _
+  """
+  a, b, c = concrete(SIGS[k1]), concrete(SIGS[k2]), concrete(CONTEXTS[ctx])
+  with untraced():
+    return _forms_ctx_ok(a, b, c)
+
+
+def _rp_ctx(ok, text, what, c):
+  if ok:
+    return False, "as demanded", "agree"
+  st, x = outcome(text)
+  return True, "%s in a model with %s: %s (%s)\n%s" % (what, c, st, x if st != "accepted" else "the later definition is used silently or the wrong one", text), "context-%s-%s" % (c, st)
+
+
+def _rp_headers_ctx(h1, h2, ctx):
+  a, b, c = HEADERS[h1], HEADERS[h2], CONTEXTS[ctx]
+  text = _ctx_frame(c, "tab") + "[%s]\nx : 0 1 2 3 4\ny : 1 1 1 1 1\n\n[%s]\nx : 0 1 2 3 4\ny : 2 2 2 2 2\n" % (a, b)
+  return _rp_ctx(_headers_ctx_ok(a, b, c), text, "table forms [%s] and [%s]" % (a, b), c)
+
+
+def _rp_forms_ctx(k1, k2, ctx):
+  a, b, c = SIGS[k1], SIGS[k2], CONTEXTS[ctx]
+  text = _ctx_frame(c, "f 1.0") + "[Potential-Form]\n%s = 1.0\n%s = 2.0\n" % (a, b)
+  return _rp_ctx(_forms_ctx_ok(a, b, c), text, "custom forms %r and %r" % (a, b), c)
+
+
 KIND_NAMES = ["myform", "as.buck", "as.zero", "as.buck4", "as.exp_spline", "other"]
 
 
@@ -527,4 +607,4 @@ def _after_other_model(rp):
   return run
 
 
-REPLAY = dict((k_, _after_other_model(v_)) for k_, v_ in dict(added_duplicates=_rp_added, added_twice=_rp_added_twice, form_signatures3=_rp_forms3, pair_keys3=_rp_pairs3, pair_keys=_rp_pair, density_keys_fs=_rp_density, embed_keys=_rp_embed, form_signatures=_rp_forms, table_form_headers=_rp_headers, form_kinds=_rp_kinds, form_kinds_crowded=lambda name, second_kind, table_first: _rp_kinds(name, second_kind, table_first, True)).items())
+REPLAY = dict((k_, _after_other_model(v_)) for k_, v_ in dict(table_form_headers_contexts=_rp_headers_ctx, form_signatures_contexts=_rp_forms_ctx, added_duplicates=_rp_added, added_twice=_rp_added_twice, form_signatures3=_rp_forms3, pair_keys3=_rp_pairs3, pair_keys=_rp_pair, density_keys_fs=_rp_density, embed_keys=_rp_embed, form_signatures=_rp_forms, table_form_headers=_rp_headers, form_kinds=_rp_kinds, form_kinds_crowded=lambda name, second_kind, table_first: _rp_kinds(name, second_kind, table_first, True)).items())
